@@ -63,7 +63,7 @@ struct Cfg {
   bool mask = false, turbulence = false, live_output = false;
   bool gravity = false, cooling = false, restart_midway = false;
   int live_mask = 7; // which live outputs are switched on
-  int source_type = 0; // 0 SingleStar, 1 AsciiFile, 2 UniformRandom, 3 SingleSupernova
+  int source_type = 0; // 0 SingleStar, 1 AsciiFile, 2 UniformRandom, 3 SingleSupernova, 4 DiscPatch
   bool feedback = false;
   bool radiation = false;
   long packets = 200;
@@ -272,6 +272,16 @@ struct Cfg {
         << "  source luminosity: 1.e46 s^-1\n  number of sources: 3\n"
         << "  box anchor: " << vec(anchor, "m") << "\n  box sides: "
         << vec(sides, "m") << "\n  random seed: 42\n"
+        << sfmt("  update interval: %.17g s\n", 0.05 * total_time)
+        << "  starting time: 0. s\n  output sources: false\n";
+    } else if (source_type == 4) {
+      o << "PhotonSourceDistribution:\n  type: DiscPatch\n"
+        << sfmt("  source lifetime: %.17g s\n", 0.3 * total_time)
+        << "  source luminosity: 1.e46 s^-1\n  average number of sources: 3\n"
+        << sfmt("  anchor x: %.17g m\n  sides x: %.17g m\n", anchor[0] + 0.1 * sides[0], 0.8 * sides[0])
+        << sfmt("  anchor y: %.17g m\n  sides y: %.17g m\n", anchor[1] + 0.1 * sides[1], 0.8 * sides[1])
+        << sfmt("  origin z: %.17g m\n  scaleheight z: %.17g m\n", anchor[2] + 0.5 * sides[2], 0.04 * sides[2])
+        << "  random seed: 43\n"
         << sfmt("  update interval: %.17g s\n", 0.05 * total_time)
         << "  starting time: 0. s\n  output sources: false\n";
     } else if (source_type == 3) {
